@@ -144,3 +144,13 @@ func VerifDumpActor(a *Actor) []int {
 	}
 	return o.Toks
 }
+
+// VerifDumpActivity: kind, then the actor as an fval of its Name() (the message of actorErr otherwise)
+func VerifDumpActivity(a *Activity) []int {
+	o := &VerifOut{}
+	o.text(a.kind)
+	if o.state(a.actorErr) {
+		o.text(a.actor.Name())
+	}
+	return o.Toks
+}
